@@ -196,11 +196,15 @@ def build(cfg, path, counter, load):
     return sc
 
 
-def algo_settings(cfg):
+def algo_settings(cfg, restart=False):
     s = {"algo_name": cfg["algo"]}
     if cfg["kind"] == "MDO":
         s["max_iter"] = cfg["max_iter"]
         s["normalize_design_space"] = cfg["normalize"]
+        if restart and cfg.get("keep_counter_on_restart"):
+            # the restarted execution keeps the evaluation counter restored from the backup: the budget
+            # then covers loaded + new evaluations, like the uninterrupted run
+            s["reset_iteration_counters"] = False
     else:
         if cfg["algo"] == "CustomDOE":
             s["samples"] = array(cfg["samples"])
@@ -326,10 +330,10 @@ def run_with_snapshots(ctx, cfg, path, load, snap_dir, label):
                 from ..seams import thread_simulation
 
                 with thread_simulation(ctx, SimClock(), with_locks=True, step_cap=400000, log_schedule=False):
-                    sc.execute(**algo_settings(cfg))
+                    sc.execute(**algo_settings(cfg, load))
                 ctx.probe("scenario_run_under_thread_scheduler")
             else:
-                sc.execute(**algo_settings(cfg))
+                sc.execute(**algo_settings(cfg, load))
         except Exception as exc:  # noqa: BLE001
             error = exc
     res = sc.optimization_result
@@ -365,6 +369,7 @@ def draw_config(t):
         cfg["constrained"] = cfg["algo"] not in UNCONSTRAINED_ONLY and t.flag(0.7, "constrained")
         cfg["max_iter"] = t.randint(3, 12, "max_iter")
         cfg["normalize"] = t.flag(0.4, "normalize")
+        cfg["keep_counter_on_restart"] = t.flag(0.5, "keep_counter_on_restart")
     else:
         cfg["algo"] = t.pick(DOE_ALGOS, "algo")
         cfg["constrained"] = t.flag(0.5, "constrained")
@@ -540,7 +545,7 @@ def check_restart(ctx, cfg, ref, rr, image, crash_path, all_names, sig_base, bud
     # same history as the uninterrupted run
     if not cfg["normalize"]:
         if not same_history(final, ref["final"], cfg):
-            if budget_stop and len(final) > len(ref["final"]) and same_history(final[: len(ref["final"])], ref["final"], cfg):
+            if budget_stop and not cfg.get("keep_counter_on_restart") and len(final) > len(ref["final"]) and same_history(final[: len(ref["final"])], ref["final"], cfg):
                 ctx.violate(
                     "C12.same_history", f"{cfg['kind']} reference-stopped-on-max_iter restarted-run-extends-history",
                     f"the uninterrupted run stopped on max_iter={cfg.get('max_iter')} with {len(ref['final'])} entries; restarted after crash path {crash_path} "
